@@ -26,5 +26,9 @@ class KTable:
             #     return np.append(np.histogram(self.wavenumberGrid,wngrid, weights=orig)[0]/np.histogram(self.wavenumberGrid,wngrid)[0],0)
 
             # else:
+            if orig.shape[0] == 1:
+                # A single table bin in range: interp1d needs two points
+                # (it returns NaN at the bin itself); hold it constant
+                return np.repeat(orig, wngrid.shape[0], axis=0)
             f = interp1d(self.wavenumberGrid[wngrid_filter], orig, axis=0, copy=False, bounds_error=False,fill_value=(orig[0],orig[-1]),assume_sorted=True)
             return f(wngrid).reshape(-1, len(self.weights))
